@@ -304,7 +304,7 @@ Section Frame.
     unfold do_call.
     destruct (e_readonly E && (0 <? value)) eqn:G; cbn; [split; [apply frame_refl|right; inlist]|].
     destruct (mem_region (m_msize s) ioff isz) as [[reg sz]|] eqn:R; cbn; [|split; [apply frame_refl|right; inlist]].
-    set (sends := is_reserved_precompile dst || negb (kind =? 1) || (e_acct_kind E (dst mod ADDR_MASK) =? 1)).
+    set (sends := is_reserved_precompile dst || negb (kind =? 1) || (e_acct_kind E (e_canon E (dst mod ADDR_MASK)) =? 1)).
     set (rr := if sends then next_ext s else _).
     destruct rr as [r rest] eqn:RR.
     set (s1 := set_ext _ _ _ _ _).
